@@ -202,6 +202,29 @@ func registerIntrinsics(e *Engine) {
 		p.newInput("zz_turn", "", a[0].(*smt.T))
 		return nil
 	})
+	// zzTurnSig(sig): a scheduling point inside code whose goroutines the harness
+	// does not own (e.g. the copy goroutines of ImageCopy), identified by what
+	// the goroutine is about to do (a request signature) instead of who it is.
+	// Context-bounded: switching away from the running task costs one unit of
+	// the budget set by zzTurnBudget. The order of signatures is recorded.
+	reg("zzTurnSig", func(fr *Frame, a []Value) Value {
+		p := fr.p
+		if !p.sigSched {
+			p.sigSched = true
+			p.eng.noteUse("tasks: request-level interleavings of internally spawned goroutines, context-bounded (zzTurnBudget switches away from a runnable task); blocked tasks hand over in spawn order")
+		}
+		if p.turnBudget > 0 {
+			if p.yield() {
+				p.turnBudget--
+			}
+		}
+		p.newInput("zz_turn", "", a[0].(*smt.T))
+		return nil
+	})
+	reg("zzTurnBudget", func(fr *Frame, a []Value) Value {
+		fr.p.turnBudget = int(concI(a[0]))
+		return nil
+	})
 	reg("zzTurnDone", func(fr *Frame, a []Value) Value { return nil })
 	reg("zzNote", func(fr *Frame, a []Value) Value { fr.p.eng.noteUse("note: " + concStr(a[0])); return nil })
 	reg("zzRedirect", func(fr *Frame, a []Value) Value {
